@@ -383,6 +383,19 @@ def oracle_empty():
             return 'an empty inferred PolyDomain {x0^2 <= 0.5, x0^2 == 1} was not detected at construction'
         except (RuntimeError, ValueError):
             pass
+        # a badly scaled convexifiable constraint, 1 - 2e-9 exp(4 x0) >= 0 (i.e. x0 <= log(5e8)/4 = 5.0075): a term with a small coefficient is a term
+        yt = so.standard_sig_monomials(2)
+        for coef in (2e-9, 2.0 ** -29):
+            gt_ = so.Signomial.from_dict({(0, 0): 1.0, (4, 0): -coef})
+            Xt = ss.infer_domain(yt[0] + yt[1], [gt_], [])
+            bound = math.log(1.0 / coef) / 4.0
+            if Xt is None:
+                return 'infer_domain dropped the only constraint 1 - %g exp(4 x0) >= 0 (X is None)' % coef
+            sf = Xt.suppfunc(np.array([1.0, 0.0]))
+            inside = Xt.check_membership(np.array([6.0, 0.0]), 1e-8)
+            if not (abs(sf - bound) <= 1e-4 * (1 + bound)) or inside:
+                return ('X inferred from 1 - %g exp(4 x0) >= 0: suppfunc(e0) = %r (the set is x0 <= %r), check_membership((6, 0)) = %s although the constraint is %r there'
+                        % (coef, sf, bound, inside, float(gt_(np.array([6.0, 0.0])))))
         # solution recovery reads a domain, it does not redefine it: after sig_solrec the lists X.gts / X.eqs are what they were
         from sageopt.relaxations import sig_solution_recovery as ssr
         y3 = so.standard_sig_monomials(2)
